@@ -7,6 +7,7 @@ import Drv.C789
 import Drv.HT
 import Drv.Heap
 import Drv.DC
+import Drv.RL2
 open Lean Drv
 
 def dispatch (op : String) (j : Json) : Json :=
@@ -23,6 +24,7 @@ def dispatch (op : String) (j : Json) : Json :=
   | "C08.struct" => C08.struct j
   | "C09.cols" => C09.cols j
   | "HT.run" => HTd.run j
+  | "RL2.run" => RL2d.run j
   | "DC.run" => DCd.run j
   | "Heap.run" => HeapD.run j
   | "RL.encode" => RL.encode j
